@@ -98,8 +98,10 @@ class EllipsePixelRegion(PixelRegion):
         pixcoord = PixCoord._validate(pixcoord, name='pixcoord')
         cos_angle = np.cos(self.angle)
         sin_angle = np.sin(self.angle)
-        dx = pixcoord.x - self.center.x
-        dy = pixcoord.y - self.center.y
+        # subtract in float so that narrow or unsigned integer coordinate
+        # arrays cannot wrap around
+        dx = np.subtract(pixcoord.x, self.center.x, dtype=float)
+        dy = np.subtract(pixcoord.y, self.center.y, dtype=float)
         in_ell = ((2 * (cos_angle * dx + sin_angle * dy) / self.width) ** 2
                   + (2 * (sin_angle * dx - cos_angle * dy)
                      / self.height) ** 2 <= 1.)
